@@ -759,6 +759,34 @@ func genSign(r *Runner, prop string) {
 	add("st-after-leaf-notafter-subsecond", "", func(s *signSpec) {
 		s.st = getIdentity(s.keyID, s.chainLen).chain[0].NotAfter.Add(400 * time.Millisecond)
 	})
+	// the validity bounds of the leaf, the second outside each, written in zones whose offset has seconds (RFC 3339 text cannot
+	// carry them), under both schemes: the chain is judged at the instant asked for
+	for _, z := range []struct {
+		n   string
+		off int
+	}{{"plus001932", 19*60 + 32}, {"minus004430", -(44*60 + 30)}, {"plus0530", 5*3600 + 1800}} {
+		for _, sch := range []signature.SigningScheme{signature.SigningSchemeX509, signature.SigningSchemeX509SigningAuthority} {
+			for _, at := range []string{"notafter", "notafter-plus-1s", "notbefore", "notbefore-minus-1s"} {
+				z, sch, at := z, sch, at
+				add("st-bound-zone:"+z.n+":"+string(sch)+":"+at, "", func(s *signSpec) {
+					leaf := getIdentity(s.keyID, s.chainLen).chain[0]
+					var t time.Time
+					switch at {
+					case "notafter":
+						t = leaf.NotAfter
+					case "notafter-plus-1s":
+						t = leaf.NotAfter.Add(time.Second)
+					case "notbefore":
+						t = leaf.NotBefore
+					case "notbefore-minus-1s":
+						t = leaf.NotBefore.Add(-time.Second)
+					}
+					s.st = t.In(time.FixedZone("", z.off))
+					s.scheme = sch
+				})
+			}
+		}
+	}
 	add("st-before-leaf-notbefore", "", func(s *signSpec) { s.st = getIdentity(s.keyID, s.chainLen).chain[0].NotBefore.Add(-time.Second) })
 	add("st-at-leaf-notbefore", "", func(s *signSpec) { s.st = getIdentity(s.keyID, s.chainLen).chain[0].NotBefore })
 	for _, ks := range []signature.KeySpec{{Type: signature.KeyTypeEC, Size: 384}, {Type: signature.KeyTypeEC, Size: 521}, {Type: signature.KeyTypeRSA, Size: 2048},
@@ -781,6 +809,10 @@ func genSign(r *Runner, prop string) {
 			tw := tw
 			add("ext-spec-key-twin:"+tw, "", func(s *signSpec) { s.ext = []attrSpec{{tw, false, "2030-01-01T00:00:00Z"}} })
 		}
+	}
+	for _, n := range reservedLookingNames {
+		n := n
+		add("ext-reserved-looking-name:"+n, "", func(s *signSpec) { s.ext = []attrSpec{{n, true, "signed value"}} })
 	}
 	for _, k := range []any{int(1), int64(1), int8(1), uint(1), int(2), int64(2), int32(2), int(3), int64(3), uint8(3)} {
 		k := k
@@ -866,13 +898,17 @@ func genSign(r *Runner, prop string) {
 				}
 			}
 			// pairs
+			signReps := familyRepresentatives(func(i int) string { return muts[i].name }, len(muts))
 			for i, a := range muts {
 				for j, b := range muts {
 					if i >= j || !applies(a, f, local) || !applies(b, f, local) {
 						continue
 					}
-					// every pair, in every tier: a change that needs two particular deviations together must not depend on a sample
-					_ = quick
+					// every pair, in every tier: a change that needs two particular deviations together must not depend on a sample —
+					// except that the members of a large family of like deviations pair through the family's first member (keepPair)
+					if !keepPair(a.name, b.name, signReps, quick, i+j) {
+						continue
+					}
 					s := base(f, local, "ec256-0")
 					s.label = "pair"
 					a.fn(&s)
@@ -941,6 +977,18 @@ func genSign(r *Runner, prop string) {
 			s.agent = "agent/" + fmt.Sprint(rng.Intn(100))
 		}
 		jobs = append(jobs, s)
+	}
+	if prop == "C03" {
+		// C03 through the sign path: only the cases in which the signer's chain and the signing time decide
+		var keep []signSpec
+		for _, j := range jobs {
+			l := j.label
+			if l == "valid" || strings.HasPrefix(l, "single:chain-") || strings.HasPrefix(l, "single:st-at-") || strings.HasPrefix(l, "single:st-after-") ||
+				strings.HasPrefix(l, "single:st-before-") || strings.HasPrefix(l, "single:st-bound-zone:") || strings.HasPrefix(l, "single:signer-empty-chain") {
+				keep = append(keep, j)
+			}
+		}
+		jobs = keep
 	}
 	runJobs(len(jobs), func(i int) { runSignSpec(r, jobs[i], i) })
 }
